@@ -10,16 +10,17 @@ from 0o777, and the sizeof-on-pointer check warns exactly when some parameter eq
 What is proved (for ALL blocks, parameters, initial register files, memories and stack pointer values):
 * `blockConst_sound` (Sound.lean): `blockConst strict … = some b` ⇒ the parameter has the value `b` in
   the reference interpreter after the block, from every initial state — so "computes … as a constant"
-  means what it says, for the full fragment and for the strict one;
-* `model_param_exact` (Exact.lean): on the STRICT fragment `blockConst true …` (no signed overflow in
-  an add/sub/mult/left-shift/2-complement step) the model of the block-local pointer-inference state
-  knows the parameter as exactly the singleton `b`;
+  means what it says;
+* `model_param_exact` (Exact.lean): on the fragment `blockConst false …` — INCLUDING add/sub/mult/
+  left-shift/2-complement steps that overflow as signed operations — the model of the block-local
+  pointer-inference state knows the parameter as exactly the singleton `b`;
 * here: hence `warn560 ↔ b > 0o177 ∧ b ≠ 0o777` and `warn467 ↔ ∃ parameter, value = pointer size`, also
   phrased with the interpreter's value.
-The theorems carry the suffix `_partial` because of the no-signed-overflow hypothesis: outside it the
-full statement is FALSE for the real code (`Interval::add/sub/signed_mul` answer `Top` when a bound
-overflows, even for singletons) — see `overflow_counterexample` below and the known finding
-`signed-overflow-top-560`, `signed-overflow-top-467`.
+History: before the repair of `Interval::add/sub/signed_mul/int_2_comp` (they answered `Top` when a bound
+overflowed, even for singletons) these theorems needed a no-signed-overflow hypothesis
+(`blockConst true`, suffix `_partial`) and the full statement was false for the real code (fixed findings
+`signed-overflow-top-560`, `signed-overflow-top-467`; the former counterexample is `overflow_now_decided`
+below).
 -/
 import CweModel.C18.Exact
 
@@ -64,76 +65,79 @@ theorem verdict560_warn_iff (sp : Variable) (blk : Term Blk) (sym : ExternSymbol
 theorem pointerSizedArg_eq (sp : Variable) (blk : Term Blk) (sym : ExternSymbol) :
     pointerSizedArg sp blk sym = warn467 sp blk.term.defs sym.parameters := rfl
 
-/-- the explicit, decidable fragment predicate -/
+/-- the explicit, decidable fragment predicate: the block computes the parameter as a constant from
+constants alone (signed overflows included) and the constant fits 64 bit -/
 def InFragment (sp : Variable) (defs : List (Term Def)) (p : Arg) : Bool :=
-  match blockConst true sp defs p with
+  match blockConst false sp defs p with
   | some b => decide (b.toNat < 2 ^ 64)
   | none => false
 
 theorem inFragment_iff (sp : Variable) (defs : List (Term Def)) (p : Arg) :
-    InFragment sp defs p = true ↔ ∃ b, blockConst true sp defs p = some b ∧ b.toNat < 2 ^ 64 := by
+    InFragment sp defs p = true ↔ ∃ b, blockConst false sp defs p = some b ∧ b.toNat < 2 ^ 64 := by
   unfold InFragment
   split
   · next b hb => simp [hb]
   · next hn => simp [hn]
 
-/-- **C18-umask (partial: no signed overflow).** In the fragment the CWE560 model warns exactly when
-the constant the block computes exceeds 0o177 and differs from 0o777. -/
-theorem warn560_iff_partial (sp : Variable) (hsp : sp.size = 8) (defs : List (Term Def)) (p : Arg) (b : Bv)
-    (hfrag : blockConst true sp defs p = some b) (hb : b.toNat < 2 ^ 64) :
+/-- **C18-umask.** When the block computes the parameter as the constant `b` from constants alone
+(signed overflows included), the CWE560 model warns exactly when `b` exceeds 0o177 and differs from
+0o777. -/
+theorem warn560_iff (sp : Variable) (hsp : sp.size = 8) (defs : List (Term Def)) (p : Arg) (b : Bv)
+    (hfrag : blockConst false sp defs p = some b) (hb : b.toNat < 2 ^ 64) :
     warn560 sp defs p = true ↔ b.toNat > 0o177 ∧ b.toNat ≠ 0o777 := by
-  simp only [warn560, model_paramConst sp hsp defs p b hfrag hb, isChmodStyleArg, Gen.C18.umaskUpper,
+  simp only [warn560, model_paramConst false sp hsp defs p b hfrag hb, isChmodStyleArg, Gen.C18.umaskUpper,
     Gen.C18.chmodUpper, Bool.and_eq_true, decide_eq_true_eq]
   constructor
   · rintro ⟨h1, h2⟩; exact ⟨of_decide_eq_true h1, of_decide_eq_true h2⟩
   · rintro ⟨h1, h2⟩; exact ⟨decide_eq_true h1, decide_eq_true h2⟩
 
-/-- **C18-umask, against the reference interpreter (partial).** For every initial state (any
+/-- **C18-umask, against the reference interpreter.** For every initial state (any
 registers, memory, stack pointer) from which the interpreter executes the block: the CWE560 model warns
 exactly when the VALUE THE INTERPRETER COMPUTES for the parameter exceeds 0o177 and differs from 0o777. -/
-theorem warn560_iff_sem_partial (sp : Variable) (hsp : sp.size = 8) (defs : List (Term Def)) (p : Arg)
+theorem warn560_iff_sem (sp : Variable) (hsp : sp.size = 8) (defs : List (Term Def)) (p : Arg)
     (hfrag : InFragment sp defs p = true)
     (σ σ' : Sem.State) (sp0 : BitVec 64) (evs : List Sem.Event)
     (hinit : GoodInit sp sp0 σ) (hx : Sem.execDefs σ defs = some (σ', evs)) :
     warn560 sp defs p = true ↔ ∃ v, semParam σ' p = some v ∧ v.toNat > 0o177 ∧ v.toNat ≠ 0o777 := by
   obtain ⟨b, hfb, hb⟩ := (inFragment_iff sp defs p).mp hfrag
-  have hs := blockConst_sound true sp defs p b hfb σ σ' sp0 evs hinit hx
-  rw [warn560_iff_partial sp hsp defs p b hfb hb, hs]
+  have hs := blockConst_sound false sp defs p b hfb σ σ' sp0 evs hinit hx
+  rw [warn560_iff sp hsp defs p b hfb hb, hs]
   constructor
   · intro h; exact ⟨b, rfl, h⟩
   · rintro ⟨v, hv, h⟩; cases hv; exact h
 
-/-- **C18-sizeof (partial: no signed overflow).** If every parameter of the call is in the fragment, the
-CWE467 model warns exactly when some parameter's constant equals the pointer size. -/
-theorem warn467_iff_partial (sp : Variable) (hsp : sp.size = 8) (defs : List (Term Def)) (ps : List Arg)
+/-- **C18-sizeof.** If every parameter of the call is in the fragment (computed from constants alone,
+signed overflows included), the CWE467 model warns exactly when some parameter's constant equals the
+pointer size. -/
+theorem warn467_iff (sp : Variable) (hsp : sp.size = 8) (defs : List (Term Def)) (ps : List Arg)
     (hfrag : ∀ p, p ∈ ps → InFragment sp defs p = true) :
     warn467 sp defs ps = true ↔
-      ∃ p, p ∈ ps ∧ ∃ b, blockConst true sp defs p = some b ∧ b.toNat = sp.size := by
+      ∃ p, p ∈ ps ∧ ∃ b, blockConst false sp defs p = some b ∧ b.toNat = sp.size := by
   simp only [warn467, List.any_eq_true, beq_iff_eq]
   constructor
   · rintro ⟨p, hp, h⟩
     obtain ⟨b, hfb, hb⟩ := (inFragment_iff sp defs p).mp (hfrag p hp)
-    rw [model_paramConst sp hsp defs p b hfb hb] at h
+    rw [model_paramConst false sp hsp defs p b hfb hb] at h
     exact ⟨p, hp, b, hfb, by simpa using h⟩
   · rintro ⟨p, hp, b, hfb, h⟩
     obtain ⟨b', hfb', hb'⟩ := (inFragment_iff sp defs p).mp (hfrag p hp)
     rw [hfb] at hfb'
     cases hfb'
-    exact ⟨p, hp, by rw [model_paramConst sp hsp defs p b hfb hb', h]⟩
+    exact ⟨p, hp, by rw [model_paramConst false sp hsp defs p b hfb hb', h]⟩
 
-/-- **C18-sizeof, against the reference interpreter (partial).** -/
-theorem warn467_iff_sem_partial (sp : Variable) (hsp : sp.size = 8) (defs : List (Term Def)) (ps : List Arg)
+/-- **C18-sizeof, against the reference interpreter.** -/
+theorem warn467_iff_sem (sp : Variable) (hsp : sp.size = 8) (defs : List (Term Def)) (ps : List Arg)
     (hfrag : ∀ p, p ∈ ps → InFragment sp defs p = true)
     (σ σ' : Sem.State) (sp0 : BitVec 64) (evs : List Sem.Event)
     (hinit : GoodInit sp sp0 σ) (hx : Sem.execDefs σ defs = some (σ', evs)) :
     warn467 sp defs ps = true ↔ ∃ p, p ∈ ps ∧ ∃ v, semParam σ' p = some v ∧ v.toNat = sp.size := by
-  rw [warn467_iff_partial sp hsp defs ps hfrag]
+  rw [warn467_iff sp hsp defs ps hfrag]
   constructor
   · rintro ⟨p, hp, b, hfb, h⟩
-    exact ⟨p, hp, b, blockConst_sound true sp defs p b hfb σ σ' sp0 evs hinit hx, h⟩
+    exact ⟨p, hp, b, blockConst_sound false sp defs p b hfb σ σ' sp0 evs hinit hx, h⟩
   · rintro ⟨p, hp, v, hv, h⟩
     obtain ⟨b, hfb, hb⟩ := (inFragment_iff sp defs p).mp (hfrag p hp)
-    have := blockConst_sound true sp defs p b hfb σ σ' sp0 evs hinit hx
+    have := blockConst_sound false sp defs p b hfb σ σ' sp0 evs hinit hx
     rw [this] at hv
     injection hv with hv
     subst hv
@@ -160,12 +164,12 @@ def viaStack (c : Nat) : List (Term Def) :=
 def edi : Arg := .Register (.Subpiece 0 4 (.Var rdi)) none
 
 -- 0o177 + 1 = 0o200: in the fragment, computed as 0o200, the model warns
-example : blockConst true rsp (viaStack 0o177) edi = some ⟨32, 0o200⟩ := by rfl
+example : blockConst false rsp (viaStack 0o177) edi = some ⟨32, 0o200⟩ := by rfl
 example : InFragment rsp (viaStack 0o177) edi = true := by decide
 example : warn560 rsp (viaStack 0o177) edi = true := by decide
 /-- the theorem applies to it -/
 example : warn560 rsp (viaStack 0o177) edi = true ↔ (0o200 > 0o177 ∧ 0o200 ≠ 0o777) :=
-  warn560_iff_partial rsp rfl (viaStack 0o177) edi ⟨32, 0o200⟩ (by rfl) (by decide)
+  warn560_iff rsp rfl (viaStack 0o177) edi ⟨32, 0o200⟩ (by rfl) (by decide)
 -- 0o176 + 1 = 0o177: in the fragment, no warning; 0o776 + 1 = 0o777: no warning; 0o775 + 1: warning
 example : InFragment rsp (viaStack 0o176) edi = true ∧ warn560 rsp (viaStack 0o176) edi = false := by decide
 example : InFragment rsp (viaStack 0o776) edi = true ∧ warn560 rsp (viaStack 0o776) edi = false := by decide
@@ -177,21 +181,42 @@ def mallocDefs : List (Term Def) :=
     tm "d2" (.Store (.BinOp .IntAdd (.Var rsp) (.Const 8 8)) (.Var rax)) ]
 def stackArg : Arg := .Stack (.BinOp .IntAdd (.Var rsp) (.Const 8 8)) 8 none
 example : InFragment rsp mallocDefs stackArg = true ∧ warn467 rsp mallocDefs [stackArg] = true := by decide
-example : blockConst true rsp mallocDefs stackArg = some ⟨64, 8⟩ := by rfl
+example : blockConst false rsp mallocDefs stackArg = some ⟨64, 8⟩ := by rfl
 
 /-- an unknown input: not in the fragment, and the model does not decide it as a constant -/
 def unknownDefs : List (Term Def) := [ tm "d1" (.Assign rdi (.BinOp .IntAdd (.Var rax) (.Const 8 0o777))) ]
 example : InFragment rsp unknownDefs edi = false ∧ (blockEndState rsp unknownDefs).paramConst edi = none := by
   decide
 
-/-- **the known finding**: `mov edi, 0x80000000 ; add edi, 0x80000080` computes 0x80 = 0o200 from constants
-alone (full fragment: `blockConst false`), the property demands a warning, but the addition overflows as a
-signed addition, `Interval::add` answers `Top`, and the check cannot determine the argument. -/
+/-- **the former known finding** (fixed): `mov edi, 0x80000000 ; add edi, 0x80000080` computes 0x80 = 0o200
+from constants alone, the property demands a warning. The addition overflows as a signed addition
+(`blockConst true` does not accept it); `Interval::add` used to answer `Top` and the check could not
+determine the argument. Since the repair the sum of two singletons is exact: the block is in the fragment
+and the model warns. -/
 def overflowDefs : List (Term Def) :=
   [ tm "d1" (.Assign rdi (.Cast .IntZExt 8 (.BinOp .IntAdd (.Const 4 0x80000000) (.Const 4 0x80000080)))) ]
-theorem overflow_counterexample :
+theorem overflow_now_decided :
     (blockConst false rsp overflowDefs edi).map (·.toNat) = some 0o200 ∧ spec560 0o200 = true ∧
-    InFragment rsp overflowDefs edi = false ∧ warn560 rsp overflowDefs edi = false := by decide
+    blockConst true rsp overflowDefs edi = none ∧
+    InFragment rsp overflowDefs edi = true ∧ warn560 rsp overflowDefs edi = true := by decide
+/-- the theorem applies to it -/
+example : warn560 rsp overflowDefs edi = true ↔ (0o200 > 0o177 ∧ 0o200 ≠ 0o777) :=
+  warn560_iff rsp rfl overflowDefs edi ⟨32, 0o200⟩ (by rfl) (by decide)
+
+/-- `malloc(0x8000000000000000 + 0x8000000000000008)` = `malloc(8)`: pointer-sized after a signed overflow;
+`-MIN` and an overflowing product / shift are kept as well -/
+def overflowMalloc : List (Term Def) :=
+  [ tm "d1" (.Assign rdi (.BinOp .IntAdd (.Const 8 0x8000000000000000) (.Const 8 0x8000000000000008))) ]
+def rdiArg : Arg := .Register (.Var rdi) none
+example : InFragment rsp overflowMalloc rdiArg = true ∧ blockConst true rsp overflowMalloc rdiArg = none ∧
+    warn467 rsp overflowMalloc [rdiArg] = true := by decide
+def overflowMisc : List (Term Def) :=
+  [ tm "d1" (.Assign rax (.UnOp .Int2Comp (.Const 8 0x8000000000000000))),
+    tm "d2" (.Assign rdi (.BinOp .IntAdd (.BinOp .IntMult (.Var rax) (.Const 8 3))
+      (.BinOp .IntLeft (.Const 8 0x4000000000000001) (.Const 1 3)))) ]
+example : (blockConst false rsp overflowMisc rdiArg).map (·.toNat) = some 0x8000000000000008 ∧
+    blockConst true rsp overflowMisc rdiArg = none ∧
+    (blockEndState rsp overflowMisc).paramConst rdiArg = some 0x8000000000000008 := by decide
 
 end Example
 
